@@ -7,7 +7,6 @@ import (
 	"time"
 
 	"verif/internal/engine"
-	"verif/internal/families"
 	"verif/internal/spec"
 )
 
@@ -19,6 +18,17 @@ func main() {
 	switch os.Args[1] {
 	case "trial":
 		trial()
+	case "sizes":
+		for _, tier := range []string{"quick", "thorough"} {
+			for name, f := range suites {
+				fam, pk := map[string]int{}, map[string]int{}
+				for _, c := range f(tier) {
+					fam[c.Family]++
+					pk[c.Family] += len(c.Variants)
+				}
+				fmt.Println(tier, name, "grammars", fam, "packages", pk)
+			}
+		}
 	case "selftest":
 		os.Exit(selftest())
 	case "check":
@@ -48,7 +58,7 @@ func trial() {
 		fmt.Fprintln(os.Stderr, err)
 		os.Exit(2)
 	}
-	cases := families.F1(1, 3, 3, spec.AllVariants)
+	cases := suites[os.Args[2]](os.Args[3])
 	fmt.Println("cases", len(cases))
 	t := time.Now()
 	res, err := e.RunSuite("trial", "quick", cases, nil, time.Time{})
